@@ -1,4 +1,5 @@
 """C10 - cancellation stops scheduling and ends in canceled."""
+from vt.harness import kernels
 from vt.harness.common import control_slices, history_body, ob
 from vt.monitors import C10Cancel
 
@@ -8,7 +9,7 @@ def cancel(ch, ctx, did, **kw):
 
 
 def obligations(tier):
-    obs = []
+    obs = [kernels.e1("C10", "L8_canceling_holds", "L8_canceling_holds", timeout=600)]
     quick = [("D02", 5), ("D04", 5), ("D05a", 5), ("D10", 5), ("D11", 5), ("D11s", 5), ("D12p", 6), ("D13", 4)]
     for did, steps in quick:
         o = ob("C10", "e2c." + did, "vt.harness.C10:cancel", {"did": did, "steps": steps, "control": "both", "tokens": True}, timeout=900)
